@@ -480,6 +480,18 @@ def real_compile(cl: Dict[str, Any], src: Path, out: Path, cwd: Optional[Path] =
     return ["ok"], ""
 
 
+_COMPILE_CHILD = r"""
+import sys, io, contextlib
+sys.path.insert(0, sys.argv[1])
+import pyrtma.compile as pc
+buf = io.StringIO()
+with contextlib.redirect_stdout(buf):
+    pc.compile([sys.argv[2]], out_dir=sys.argv[3], out_name="defs", debug=False, validate_alignment=True,
+               auto_pad=sys.argv[4] == "1", import_coredefs=sys.argv[5] == "1", python=sys.argv[6] == "1",
+               javascript=True, matlab=True, c_lang=True, combined=True)
+"""
+
+
 def env_toks(cwd, root_spelled, I: Interner) -> List[str]:
     c = path_toks(os.path.realpath(cwd), I)
     return [str(len(c))] + c + spelled_toks(root_spelled, I)
@@ -1308,6 +1320,27 @@ def run_closure(cid: str, cl: Dict[str, Any], tmp_root: Path, want: Dict[str, bo
                     for f in ("defs.py", "defs.h", "defs.js", "defs.m", "defs_combined.yaml"):
                         if (out / f).read_bytes() != (out3 / f).read_bytes():
                             diffs.append(f + "@parent")
+                # fourth compile: another interpreter process with a fixed string-hash seed (the first three share the
+                # harness's own): anything that follows set / hash order differs between processes only
+                # (a replay runs all four seeds: the failing pair of processes must not depend on the harness's own seed)
+                with_py = sum(map(ord, cid)) % 5 == 0
+                for hs in (range(4) if want.get("all_hash_seeds") else [sum(map(ord, cid)) % 4]):
+                    out4 = work / f"out4_{hs}"
+                    out4.mkdir()
+                    env = dict(os.environ, PYTHONHASHSEED=str(hs))
+                    try:
+                        r4 = subprocess.run([PY, "-c", _COMPILE_CHILD, str(C.REPO / "src"), str(root), str(out4),
+                                             "1" if cl.get("auto_pad", True) else "0", "1" if cl.get("coredefs", False) else "0",
+                                             "1" if with_py else "0"], env=env, cwd=str(work), capture_output=True, text=True, timeout=300)
+                        if r4.returncode != 0:
+                            diffs.append(f"compile in another process (PYTHONHASHSEED={hs}): " + r4.stderr.strip().splitlines()[-1][:200]
+                                         if r4.stderr.strip() else f"compile in another process: exit {r4.returncode}")
+                        else:
+                            for f in (["defs.py"] if with_py else []) + ["defs.h", "defs.js", "defs.m", "defs_combined.yaml"]:
+                                if not (out4 / f).exists() or (out / f).read_bytes() != (out4 / f).read_bytes():
+                                    diffs.append(f + f"@process(PYTHONHASHSEED={hs})")
+                    except subprocess.TimeoutExpired:
+                        diffs.append("compile in another process: no result within 300 s")
                 obs["nondeterministic"] = diffs
         blk.append("END")
         return {"block": tbl + blk, "names": I.names, "obs": obs}
